@@ -16,6 +16,18 @@ RaiseP == L(<<Atom(<<8>>)>>)
 OracleRun(puzzle) == IF puzzle = RaiseP \/ IsAtom(puzzle) \/ puzzle.l # A1 THEN [ok |-> FALSE, cost |-> Zero, res |-> Nil]
                      ELSE [ok |-> TRUE, cost |-> <<20>>, res |-> puzzle.r]
 
+\* shapes that matter to the raw condition listing of the trusted helper (opcode forms, argument selection, long atoms)
+ListingLists ==
+  {L(<<Cons(Atom(<<0, 51>>), L(<<Atom(Z2), Atom(<<7>>)>>)), Cons(Op(51), L(<<Atom(Z2), Atom(<<7>>)>>))>>),       \* non-canonical opcode next to a real one
+   L(<<Cons(Nil, L(<<Atom(<<5>>)>>)), Cons(Atom(<<3, 255, 255, 255>>), L(<<Atom(<<5>>)>>)), Cons(Atom(<<4, 0, 0, 0>>), L(<<Atom(<<6>>)>>))>>),
+   L(<<Cons(Atom(<<128>>), Nil), Cons(Atom(<<0, 128>>), L(<<Atom(<<1>>)>>)), Cons(Atom(<<1, 0, 0, 0, 0>>), Nil)>>),
+   L(<<Cons(Op(1), L(<<Atom(<<1>>), Atom(<<2>>), Atom(<<3>>), Atom(<<4>>), Atom(<<5>>), Atom(<<6>>), Atom(<<7>>), Atom(<<8>>)>>))>>),
+   L(<<Cons(Op(1), L(<<L(<<Atom(<<9>>)>>), Atom(<<1>>), L(<<Nil>>), Atom(<<2>>), Atom(<<3>>), Atom(<<4>>), Atom(<<5>>), Atom(<<6>>), Atom(Bytes(1024, 7))>>))>>),
+   L(<<Cons(Op(1), L(<<Atom(<<1>>), Atom(Bytes(1024, 7))>>)), Cons(Op(1), L(<<Atom(Bytes(1023, 7))>>))>>),
+   L(<<Cons(Op(1), Atom(<<9>>)), Cons(Op(1), ListWithTail(<<Atom(<<1>>)>>, Atom(<<2>>)))>>),
+   L(<<Cons(Op(51), L(<<Atom(Z2), Atom(<<7>>), L(<<Atom(H5)>>), Atom(<<1>>), Atom(<<2>>), Atom(<<3>>), Atom(<<4>>), Atom(<<5>>)>>))>>),
+   L(<<Cons(Op(51), L(<<Atom(Z2), Atom(<<100>>)>>)), Cons(Op(50), L(<<Atom(GenKey), Atom(<<1, 2, 3>>)>>)), Cons(Op(50), L(<<Atom(GenKey), Atom(<<1, 2, 3>>)>>))>>)}
+
 \* condition lists with the hint / memo shapes that matter to the trusted helpers
 CondLists == {Nil,
               L(<<Cons(Op(51), L(<<Atom(Z2), Atom(<<7>>)>>))>>),
@@ -35,6 +47,7 @@ CondLists == {Nil,
               L(<<Cons(Op(73), L(<<Atom(<<123>>)>>)), Cons(Op(60), L(<<Atom(<<3>>)>>))>>),
               L(<<Cons(Op(82), L(<<Atom(<<5>>)>>)), Cons(Op(52), L(<<Atom(<<100>>)>>))>>),
               ListWithTail(<<Cons(Op(1), Nil)>>, A1), A1, L(<<A1>>)}
+             \cup ListingLists
 
 Puzzles == {QuoteP(c) : c \in CondLists} \cup {RaiseP, A1, Nil}
 Amounts == {<<123>>, <<>>, <<0, 128>>, <<0, 123>>, <<128>>, <<0, 255, 255, 255, 255, 255, 255, 255, 255>>, <<1, 0, 0, 0, 0, 0, 0, 0, 0>>}
@@ -114,6 +127,8 @@ AcceptedBlockOk == (phase = 1 /\ Res.ok) =>
   /\ Le(Res.cost, BigMax)
   \* the trusted view is well defined: one addition per created coin
   /\ Cardinality(ExpectedAdditions(st)) <= NumAdditions(st)
+  \* the raw condition listing of the trusted helper contains exactly the validated created coins / AGG_SIG_ME of each spend
+  /\ \A i \in DOMAIN st.ret.spends : ListingCoversValidated(ListingOfConds(EventOf(pick).runs[i].res), st.ret.spends[i])
 \* reference k beyond the list walks off its end: the generator raises and both paths must reject
 RefSelOk == (phase = 1 /\ IsRef(pick)) =>
   /\ IsRefSelProg(RefProg(pick))
